@@ -41,7 +41,7 @@ def bar_len(n, d):
 
 
 class Family:
-    __slots__ = ("kind", "root", "route", "parent", "it", "snap", "index", "pristine")
+    __slots__ = ("kind", "root", "route", "parent", "it", "snap", "index", "pristine", "held")
 
     def __init__(self, kind, root, route, parent):
         self.kind = kind
@@ -52,6 +52,7 @@ class Family:
         self.snap = None
         self.index = -1
         self.pristine = True
+        self.held = []
 
     def bars(self):
         if self.kind == "bar":
@@ -212,6 +213,9 @@ class FamWorld:
         fam.index = len(self.fams)
         self.fams.append(fam)
         fam.snap = fam.snapshot()
+        # references a caller got hold of when the object was made (`b = track.bars[0]`) and may use at any later time -
+        # also after the object has been copied: a lazily unsharing copy must not hand these over to the other party
+        fam.held = list(fam.seqs())
         return fam
 
     def _build_initial(self, ini):
@@ -497,6 +501,9 @@ class FamWorld:
     # ---- steps of a family
 
     def _target(self, fam, ev):
+        if ev.get("held") and fam.held:
+            self.stats["reach_ref/operation_through_a_reference_held_since_creation"] += 1
+            return fam.held[ev.get("target", 0) % len(fam.held)]
         seqs = fam.seqs()
         if not seqs:
             return None
@@ -1045,6 +1052,8 @@ def _gen_act(rng, world, fi, fam, inplace_bias):
     ev = {"op": "act", "fam": fi, "target": target, "name": name, "args": args}
     if ref is not None:
         ev["ref"] = ref
+    if world.prop == "C16" and fam.kind != "seq" and rng.random() < 0.25:
+        ev["held"] = True
     return ev
 
 
